@@ -104,15 +104,18 @@ theorem C09_load (d : PyVal) (s : ImgState) (ver : PyVal) (hver : headerDeserial
     exact this
   · intro i hi; simp [Cells.all] at hi
 
-/-- **a document containing a colliding pair is rejected** (documents newer than 1.1, whose image table — a JSON
-object, hence with unique keys at both levels — is `O`): if two entries of the table are read as images with the
-same identity and different checksums, `deserialize` raises.  For 1.1 documents (where `src` entries are re-filed)
-the statement is covered by `C09_load` together with the harness, not by this theorem. -/
-theorem C09_load_rejects (ver : PyVal) (vt : VerT) (hvt : versionTuple ver = .ok vt)
-    (hnew : gateEval Gen.gate_images_Images_deserialize_0 vt = .ok false) (hv : Enforces ver)
+/-- **a document containing a colliding pair is rejected**, for every format version that enforces the scan (1.1, 1.2,
+later).  The image table of the document is `O` (a parsed JSON object: unique keys at both levels).  If two entries of
+the table are read as images with the same identity and different checksums, `deserialize` raises.  In a document old
+enough for the `src` re-filing (`old`, i.e. ≤ 1.1 by the generated gate) the two entries must not sit under a `src`
+key: such entries are re-filed under the variant's other arches or dropped (C10), they are not part of the manifest
+the document describes; for documents newer than 1.1 (`old = false`) the side condition is void. -/
+theorem C09_load_rejects (ver : PyVal) (vt : VerT) (hvt : versionTuple ver = .ok vt) (old : Bool)
+    (hold : gateEval Gen.gate_images_Images_deserialize_0 vt = .ok old) (hv : Enforces ver)
     (hdr comp : PyVal) (O : OutCells) (hO : OutNodup O)
     (hhead : headerDeserialize (.dict [(L "header", hdr), (L "payload", .dict [(L "images", O.toPy), (L "compose", comp)])]) = .ok ver)
-    (t1 t2 : Str × Str × PyVal) (ht1 : t1 ∈ outTriples O) (ht2 : t2 ∈ outTriples O) (i j : Image)
+    (t1 t2 : Str × Str × PyVal) (ht1 : t1 ∈ outTriples O) (ht2 : t2 ∈ outTriples O)
+    (hs1 : old = true → t1.2.1 ≠ L "src") (hs2 : old = true → t2.2.1 ≠ L "src") (i j : Image)
     (h1 : Image.deserialize ver t1.2.2 = .ok i) (h2 : Image.deserialize ver t2.2.2 = .ok j)
     (hid : SameIdentity i j) (hck : ¬ PyEq i.checksums j.checksums) :
     ∃ e, deserialize (.dict [(L "header", hdr), (L "payload", .dict [(L "images", O.toPy), (L "compose", comp)])]) = .error e := by
@@ -140,10 +143,10 @@ theorem C09_load_rejects (ver : PyVal) (vt : VerT) (hvt : versionTuple ver = .ok
     obtain ⟨s1, n⟩ := r
     injection hd with hd
     rw [loadVariants_eq ver O hO O (fun _ h => h)] at hl
-    obtain ⟨_, _, hfiles⟩ := loadTriples_files ver O.toPy vt hvt hnew (outTriples O) _ 0 (s1, n)
+    obtain ⟨_, _, hfiles⟩ := loadTriples_files_any ver O.toPy vt hvt old hold (outTriples O) _ 0 (s1, n)
       (by intro e he; simp [entries] at he) hl
-    have hi := hfiles t1 ht1 i h1
-    have hj := hfiles t2 ht2 j h2
+    have hi := hfiles t1 ht1 hs1 i h1
+    have hj := hfiles t2 ht2 hs2 j h2
     have hcells : s.cells = s1.cells := by rw [← hd]
     rw [hcells] at hu
     exact hck (hu i hi j hj hid)
@@ -197,10 +200,11 @@ theorem C09_witness_refused :
   decide +kernel
 
 example : witnessA.validate = .ok () := by decide +kernel
-/-- hypotheses of `C09_load_rejects` hold for 1.2 and 2.0 headers; a 1.1 header is outside it (re-filing gate on) -/
+/-- hypotheses of `C09_load_rejects`: 1.2 and 2.0 headers have `old = false`, a 1.1 header has `old = true` and enforces -/
 example : versionTuple (.str (L "1.2")) = .ok (.nums (1, 2)) ∧ gateEval Gen.gate_images_Images_deserialize_0 (.nums (1, 2)) = .ok false
     ∧ gateEval Gen.gate_images_Images_deserialize_0 (.nums (2, 0)) = .ok false
-    ∧ gateEval Gen.gate_images_Images_deserialize_0 (.nums (1, 1)) = .ok true := by decide +kernel
+    ∧ gateEval Gen.gate_images_Images_deserialize_0 (.nums (1, 1)) = .ok true
+    ∧ versionTuple (.str (L "1.1")) = .ok (.nums (1, 1)) := by decide +kernel
 
 example : Enforces (.str (L "1.1")) := by unfold Enforces; decide +kernel
 example : Enforces (.str (L "1.2")) := by unfold Enforces; decide +kernel
